@@ -17,7 +17,10 @@ fi
 git -C $BOX/repo checkout -q --detach "$(git -C /repo rev-parse HEAD)" && git -C $BOX/repo checkout -q -- . && git -C $BOX/repo clean -fdq -e target
 git -C $BOX/repo apply "$PATCH" || { echo "PATCH DOES NOT APPLY"; exit 2; }
 mkdir -p $BOX/sim $BOX/verif/evidence/.parts $BOX/verif/replays
-rsync -a --delete --exclude target /verif/sim/ $BOX/sim/
+# simulator sources: the *committed* /verif/sim (so that uncommitted edits in progress do not leak in)
+rm -rf $BOX/sim-src; mkdir -p $BOX/sim-src
+git -C /verif archive HEAD sim | tar -x -C $BOX/sim-src
+rsync -a --delete --exclude target $BOX/sim-src/sim/ $BOX/sim/
 sed -i "s#path = \"/repo\"#path = \"$BOX/repo\"#" $BOX/sim/Cargo.toml
 cp /verif/known_findings.json $BOX/verif/
 export VERIF_DIR=$BOX/verif CARGO_NET_OFFLINE=true
